@@ -24,8 +24,12 @@ FUNCTIONS = ["jinja2.lexer.newline_re", "Lexer.tokeniter (newline split/join, tr
 OUTSIDE = ["texts other than <= 4 (5 thorough) pieces from the 11-entry character table", "delimiter configurations other than the 3 listed"]
 ASSUMPTIONS = ["line breaks are exactly \\n, \\r\\n and \\r as documented"]
 
-CH = ["a", " ", "\n", "\r\n", "\r", "{", "%", "}", "#", "é", "\n\n"]
-BODY = ["x", " ", "\n", "\r\n", "{{ y }}", "{% if %}", "{#", "#}", "%}", "{{", "\r", "é"]
+CH = ["a", " ", "\n", "\r\n", "\r", "{", "%", "}", "#", "é", "\n\n", "<b>&'\""]
+BODY = ["x", " ", "\n", "\r\n", "{{ y }}", "{% if %}", "{#", "#}", "%}", "{{", "\r", "é", "<b>&'\""]
+# (line statement prefix, line comment prefix); prefixes with regular-expression metacharacters are literals too
+LINE_PREFIXES = [None, ("#", "##"), ("%", ".."), ("..", "%%"), ("$", "(.)")]
+# escaping regions: template data is never escaped, whatever decides the autoescape setting
+AE = [None, "static", "vol_on", "vol_off", "const_on"]
 P = {}
 ENV = None
 NLS = ["\n", "\r\n", "\r"]
@@ -47,16 +51,44 @@ def setup(param):
     global P, ENV
     P = dict(param or {})
     d = W.DELIMS[P.get("delims", 0)]
+    lp = LINE_PREFIXES[P.get("line", 0)]
+    extra = dict(line_statement_prefix=lp[0], line_comment_prefix=lp[1]) if lp else {}
+    if AE[P.get("ae", 0)] == "static":
+        extra["autoescape"] = True
     ENV = Environment(newline_sequence=NLS[P.get("nl", 0)], keep_trailing_newline=P.get("ktn", False), finalize=_fin(P.get("fin")),
-                      trim_blocks=P.get("trim", False), lstrip_blocks=P.get("trim", False),
+                      trim_blocks=P.get("trim", False), lstrip_blocks=P.get("trim", False), **extra,
                       block_start_string=d["bs"], block_end_string=d["be"], variable_start_string=d["vs"],
                       variable_end_string=d["ve"], comment_start_string=d["cs"], comment_end_string=d["ce"])
 
 
+def _wrapped():
+    return AE[P.get("ae", 0)] in ("vol_on", "vol_off", "const_on")
+
+
+def _render(src):
+    """Render `src`, inside an autoescape region when the condition asks for one."""
+    ae = AE[P.get("ae", 0)]
+    if not _wrapped():
+        return ENV.from_string(src).render()
+    d = W.DELIMS[P.get("delims", 0)]
+    flag = "true" if ae == "const_on" else "flag"
+    pre = d["bs"] + " autoescape " + flag + " " + d["be"]
+    post = d["bs"] + " endautoescape " + d["be"]
+    full = pre + src + post
+    allowed = {0, len(pre) + len(src)}
+    for st in (d["bs"], d["vs"], d["cs"]):
+        i = full.find(st)
+        while i >= 0:
+            if i not in allowed:
+                return None   # a trailing partial delimiter joins the region's end tag: not the text under test
+            i = full.find(st, i + 1)
+    return ENV.from_string(full).render(flag=(ae == "vol_on"))
+
+
 def _expect_text(src):
     n = W.norm(src)
-    if not P.get("ktn", False) and n.endswith("\n"):
-        n = n[:-1]
+    if not P.get("ktn", False) and n.endswith("\n") and not _wrapped():
+        n = n[:-1]     # the template's own trailing line break (inside a region the text is not at the end)
     return n.replace("\n", NLS[P.get("nl", 0)])
 
 
@@ -71,7 +103,11 @@ def text_ok(cs: List[int]) -> bool:
         d = W.DELIMS[P.get("delims", 0)]
         if any(x in src for x in (d["bs"], d["vs"], d["cs"])):
             return True  # contains a delimiter start sequence: outside this clause
-        return ENV.from_string(src).render() == _expect_text(src)
+        lp = LINE_PREFIXES[P.get("line", 0)]
+        if lp and any(x in src for x in lp):
+            return True  # contains a line statement / line comment prefix: outside this clause
+        got = _render(src)
+        return got is None or got == _expect_text(src)
 
 
 def body_ok(kind: int, cs: List[int], tail: int) -> bool:
@@ -107,12 +143,13 @@ def body_ok(kind: int, cs: List[int], tail: int) -> bool:
                     exp_mid = nb[:i]
             after_tag_trim = P.get("trim", False)
         tail_n = W.norm(tl)
-        if not P.get("ktn", False) and tail_n.endswith("\n"):
+        if not P.get("ktn", False) and tail_n.endswith("\n") and not _wrapped():
             tail_n = tail_n[:-1]  # the template's own trailing line break
         if after_tag_trim and tail_n.startswith("\n"):
             tail_n = tail_n[1:]
         exp = ("h" + W.norm(exp_mid) + tail_n).replace("\n", NLS[P.get("nl", 0)])
-        return ENV.from_string(src).render() == exp
+        got = _render(src)
+        return got is None or got == exp
 
 
 def MAXP():
@@ -145,14 +182,15 @@ def smt_root(param):
     d = W.DELIMS[param.get("delims", 0)]
     kw = dict(block_start_string=d["bs"], block_end_string=d["be"], variable_start_string=d["vs"], variable_end_string=d["ve"],
               comment_start_string=d["cs"], comment_end_string=d["ce"])
-    if param.get("line"):
-        kw.update(line_statement_prefix="#", line_comment_prefix="##")
+    lp = LINE_PREFIXES[int(param.get("line") or 0)]
+    if lp:
+        kw.update(line_statement_prefix=lp[0], line_comment_prefix=lp[1])
     lx = Lexer(Environment(**kw))
     pat = lx.rules["root"][0].pattern
     R, dropped = rx.to_z3(pat, drop_context=True)
     s = z3.String("s")
     q = rx.Q()
-    starts = [d["bs"], d["vs"], d["cs"]] + (["#"] if param.get("line") else [])
+    starts = [d["bs"], d["vs"], d["cs"]] + (list(lp) if lp else [])
     r0, _ = q.check("nonempty", z3.InRe(s, R), z3.Length(s) <= 30)
     if r0 != "sat":
         return {"verdict": "HARNESS_ERROR", "detail": "root rule language empty"}
@@ -165,7 +203,7 @@ def smt_root(param):
     if r == "unsat":
         out["verdict"] = "CONFIRMED"
     elif r == "sat":
-        out.update(verdict="REFUTED", cex={"kind": "root", "string": rx.zstr_to_py(rx.model_str(m, s)), "delims": param.get("delims", 0), "line": bool(param.get("line"))})
+        out.update(verdict="REFUTED", cex={"kind": "root", "string": rx.zstr_to_py(rx.model_str(m, s)), "delims": param.get("delims", 0), "line": int(param.get("line") or 0)})
     else:
         out["verdict"] = "CANNOT_CONFIRM"
     return out
@@ -180,8 +218,9 @@ def smt_replay(cex):
     d = W.DELIMS[cex.get("delims", 0)]
     kw = dict(block_start_string=d["bs"], block_end_string=d["be"], variable_start_string=d["vs"], variable_end_string=d["ve"],
               comment_start_string=d["cs"], comment_end_string=d["ce"])
-    if cex.get("line"):
-        kw.update(line_statement_prefix="#", line_comment_prefix="##")
+    lp = LINE_PREFIXES[int(cex.get("line") or 0)]
+    if lp:
+        kw.update(line_statement_prefix=lp[0], line_comment_prefix=lp[1])
     env = Environment(**kw)
     # a delimiter-free text must lex to data only
     toks = list(env.lex(w))
@@ -193,8 +232,10 @@ def conditions(tier, seed):
     to = 200 if th else 50
     out = [Cond("E2 newline_re == {CRLF, CR, LF}", "smt_newline", kind="smt", mode="A", param={}, replay="smt_replay", timeout=60, bounds="all strings")]
     for dl in (0, 1, 2):
-        for line in (False, True):
-            out.append(Cond(f"E2 root rule needs a delimiter[delims={dl},line={line}]", "smt_root", kind="smt", mode="A",
+        for line in range(len(LINE_PREFIXES)):
+            if line >= 2 and (dl + line + seed) % 3 and not th:
+                continue
+            out.append(Cond(f"E2 root rule needs a delimiter[delims={dl},line prefixes={LINE_PREFIXES[line]}]", "smt_root", kind="smt", mode="A",
                             param={"delims": dl, "line": line}, replay="smt_replay", timeout=120, bounds="all strings <= 30 chars"))
     mp = 4 if th else 3
     for nl in range(3):
@@ -205,14 +246,21 @@ def conditions(tier, seed):
                                 param={"nl": nl, "ktn": ktn, "maxp": mp, "first": first}, timeout=to,
                                 witnesses=[[[0, 3, 0, 2][:mp]], [[5, 1, 6]], [[4, 2]], [[]]],
                                 bounds=f"optional first piece + <= {mp} pieces from {CH!r}"))
+    for line in range(1, len(LINE_PREFIXES)):
+        out.append(Cond(f"plain text[line prefixes={LINE_PREFIXES[line]}]", "text_ok", mode="B", param={"line": line, "maxp": 3, "nl": line % 3}, timeout=to,
+                        witnesses=[[[0, 3, 0]], [[5, 1, 6]], [[4, 2]], [[11, 2, 0]]], bounds=f"<= 3 pieces from {CH!r} not containing the configured line prefixes"))
+    for ae in range(1, len(AE)):
+        out.append(Cond(f"plain text[autoescape={AE[ae]}]", "text_ok", mode="B", param={"ae": ae, "maxp": 3, "ktn": ae % 2 == 0}, timeout=to,
+                        witnesses=[[[11, 3, 0]], [[5, 11, 6]], [[11]], [[]]], bounds=f"<= 3 pieces from {CH!r}; autoescape decided by the environment, a constant region or a runtime flag (both values)"))
     for fin in ("plain", "context", "eval", "env"):
         out.append(Cond(f"plain text[finalize={fin}]", "text_ok", mode="B", param={"fin": fin, "maxp": 2}, timeout=to,
                         witnesses=[[[0, 2]], [[5, 0]]], bounds="<= 2 pieces; environment finalize hook of each kind must not touch template data"))
     for dl in (0, 1):
         for trim in (False, True):
             for nl in ((0, 1) if not th else (0, 1, 2)):
-                out.append(Cond(f"comment/raw bodies[delims={dl},trim+lstrip={trim},nl={NLS[nl]!r}]", "body_ok", mode="B",
-                                param={"delims": dl, "trim": trim, "nl": nl, "maxp": 3 if th else 2}, timeout=to,
-                                witnesses=[[0, [4, 2], 1], [1, [4, 5], 2], [1, [2, 1], 0], [0, [6], 0]],
+                ae = (dl * 2 + trim + nl + seed) % len(AE)
+                out.append(Cond(f"comment/raw bodies[delims={dl},trim+lstrip={trim},nl={NLS[nl]!r},autoescape={AE[ae]}]", "body_ok", mode="B",
+                                param={"delims": dl, "trim": trim, "nl": nl, "maxp": 3 if th else 2, "ae": ae}, timeout=to,
+                                witnesses=[[0, [4, 2], 1], [1, [4, 5], 2], [1, [2, 1], 0], [0, [6], 0], [1, [12, 0], 1]],
                                 bounds=f"comment or raw body of <= {3 if th else 2} pieces from {BODY!r}, 3 tails"))
     return out
